@@ -24,6 +24,15 @@ def run(ctx):
                     continue
                 jobs.append('%s/%s;%s' % (kind, r, p))
     run_hm(ctx, jobs, pb=2 if q else 3, max_exec=250 if q else 20000)
+    # A: the same iterator programs with address reuse (xvrt --reuse, see C08): a guard dropped too early shows as a traversal that continues in a NEW
+    # node at the old address
+    import xvlib
+    xvlib.EXTRA_ALL[0] = '--reuse'
+    try:
+        run_hm(ctx, ['%s/%s;%s' % (k, r, p) for k in ('set', 'map1nc', 'map2mc') for r in (['hp3', 'lfrc'] if q else ['hp3', 'he3', 'lfrc', 'ebr0']) for p in PROGS],
+               pb=2, max_exec=1500 if q else 30000, tagx='reuse_')
+    finally:
+        xvlib.EXTRA_ALL[0] = ''
     if not q:
         run_hm(ctx, jobs, pb=5, max_exec=0, mode='random', runs=600, tagx='r')
     for r in ctx.tv[:3]:
